@@ -151,6 +151,11 @@ func (c *Config) Unpack(to interface{}, options ...Option) error {
 	if !isValid {
 		return raisePointerRequired(vTo)
 	}
+	if vTo.IsNil() {
+		// a nil map can not be filled in place, and there is nothing a nil
+		// pointer points to
+		return raiseNil(ErrNilValue)
+	}
 
 	return reifyInto(opts, vTo, c)
 }
